@@ -275,6 +275,17 @@ def r20_6(ctx, rep):
     compile_walk_total(ctx, rep, "R20.6")
 
 
+@SPEC.rule(
+    "R20.7",
+    "the cache file is the only memory: no function of casadi/api.py writes a module-level container, is wrapped in a caching "
+    "decorator or keeps a mutable default — an in-process memo of loaded models (by folder and name) would answer the second "
+    "transfer_model of a process without looking at modification times, options or version",
+)
+def r20_7(ctx, rep):
+    from ..props.c25 import module_state_free
+    module_state_free(ctx, rep, "R20.7", API, "the CasADi API (transfer_model, load_model, save_model and their helpers)")
+
+
 # -- seeded variants ---------------------------------------------------------
 from ._mut import delete_stmt_where, replace_in_func  # noqa: E402
 
@@ -373,3 +384,15 @@ def _m_seen_items(mod):
         return False
 
     return mod if replace_in_func(mod, "_compile_model", edit) else None
+
+
+@SPEC.mutant("loaded models memoised per process", API, "R20.7", "no state kept")
+def _m_process_memo(mod):
+    for i, st in enumerate(mod.body):
+        if isinstance(st, ast.FunctionDef) and st.name == "transfer_model":
+            mod.body.insert(i, ast.parse("_models = {}").body[0])
+            st.body.insert(1 if isinstance(st.body[0], ast.Expr) else 0, ast.parse(
+                "if (model_folder, model_name) in _models:\n    return _models[(model_folder, model_name)]").body[0])
+            st.body.insert(2, ast.parse("_models.setdefault((model_folder, model_name), None)").body[0])
+            return mod
+    return None
